@@ -253,6 +253,53 @@ class Desugar(ast.NodeTransformer):
         node.body = [self.visit(st) if isinstance(st, (ast.FunctionDef, ast.AsyncFunctionDef, ast.ClassDef)) else st for st in node.body]
         return node
 
+    def visit_FunctionDef(self, node):
+        self.generic_visit(node)
+        self._inline_partials(node)
+        return node
+
+    def _inline_partials(self, fn):
+        """`g = functools.partial(f, a, k=v)` bound once at the top level of a function, with f / a / v names that are never rebound (or self.x,
+        constants), and g used only as a callee: every `g(b)` becomes `f(a, b, k=v)` and the binding goes."""
+        stores = {}
+        for n in ast.walk(fn):
+            if isinstance(n, ast.Name) and isinstance(n.ctx, (ast.Store, ast.Del)):
+                stores[n.id] = stores.get(n.id, 0) + 1
+            elif isinstance(n, (ast.Global, ast.Nonlocal)):
+                for x in n.names:
+                    stores[x] = stores.get(x, 0) + 2
+        params = {a.arg for a in fn.args.posonlyargs + fn.args.args + fn.args.kwonlyargs}
+
+        def stable(e):
+            if isinstance(e, ast.Constant):
+                return True
+            if isinstance(e, ast.Name):
+                return stores.get(e.id, 0) == 0   # a parameter or a global that this function never rebinds
+            if isinstance(e, ast.Attribute):
+                return stable(e.value)
+            return False
+
+        for i, st in enumerate(list(fn.body)):
+            if not (isinstance(st, ast.Assign) and len(st.targets) == 1 and isinstance(st.targets[0], ast.Name) and isinstance(st.value, ast.Call)
+                    and ast.unparse(st.value.func) in ("functools.partial", "partial") and st.value.args):
+                continue
+            g = st.targets[0].id
+            call = st.value
+            if stores.get(g, 0) != 1 or g in params or not all(stable(a) for a in call.args) or not all(k.arg and stable(k.value) for k in call.keywords):
+                continue
+            uses = [n for n in ast.walk(fn) if isinstance(n, ast.Name) and n.id == g and isinstance(n.ctx, ast.Load)]
+            callees = [n for n in ast.walk(fn) if isinstance(n, ast.Call) and isinstance(n.func, ast.Name) and n.func.id == g]
+            if len(uses) != len(callees) or not callees:
+                continue
+            if any(k.arg is None or k.arg in {kk.arg for kk in call.keywords} for c in callees for k in c.keywords) or any(isinstance(a, ast.Starred) for c in callees for a in c.args):
+                continue
+            for c in callees:
+                c.func = ast.copy_location(_clone_expr(call.args[0]), c.func)
+                c.args = [_clone_expr(a) for a in call.args[1:]] + c.args
+                c.keywords = c.keywords + [ast.keyword(arg=k.arg, value=_clone_expr(k.value)) for k in call.keywords]
+            fn.body[i] = ast.copy_location(ast.Pass(), st)
+            self.count += 1
+
     def visit_Compare(self, node):
         self.generic_visit(node)
         if len(node.ops) == 1 and type(node.ops[0]) in self.MIRROR and isinstance(node.left, ast.Constant) \
@@ -271,6 +318,10 @@ class Desugar(ast.NodeTransformer):
             new = ast.Compare(left=c.left, ops=[self.NEGATE[type(c.ops[0])]()], comparators=c.comparators)
             return ast.copy_location(new, node)
         return node
+
+
+def _clone_expr(e):
+    return ast.parse(ast.unparse(e), mode="eval").body
 
 
 def desugar(tree):
